@@ -313,7 +313,9 @@ class ASTNode(DataClassSerializeMixin):
         # yet and thus will have a different ID. We need to force
         # the ID to be the same as the serialized one and replace
         # the node in the registry
-        if new_obj.id != value["id"]:
+        # (unless that ID was meanwhile taken by another live node, e.g. by a
+        # child deserialized just before, which must stay registered)
+        if new_obj.id != value["id"] and NODE_REGISTRY.get(value["id"]) is None:
             NODE_REGISTRY.pop(new_obj.id)
             object.__setattr__(new_obj, "id", value["id"])
             NODE_REGISTRY[value["id"]] = new_obj
